@@ -82,6 +82,12 @@ def opHerm (j : Json) : Except String Json := do
   let a ← parsePS (← field j "a")
   return val (.bool a.isHermitian)
 
+/-- `wps.flags {a, w}` ↦ `WeightedPauliString(a, w).is_hermitian()`, `.is_unitary()` -/
+def opWpsFlags (j : Json) : Except String Json := do
+  let a ← parsePS (← field j "a")
+  let w ← parseGQ (← field j "w")
+  return val (Json.mkObj [("herm", .bool (wpsIsHermitian a w)), ("unitary", .bool (wpsIsUnitary w))])
+
 def opStr (j : Json) : Except String Json := do
   let a ← parsePS (← field j "a")
   return val (.str a.toString)
